@@ -359,7 +359,7 @@ def three_clauses(sigbase, ref, canonical, parse_ok, produce, parse, expected, r
                     fails.append(f)
         except LibError as e:
             f = exc_fail(sigbase, 'regen', e)
-            if f[1] not in produced:
+            if f[0].replace(':regen:', ':produce:') not in [x[0] for x in fails]:   # same exception as clause 1
                 fails.append(f)
     return fails + parse_fails
 
@@ -484,7 +484,7 @@ def mr_sigbase(m):
     if m['svc'] == 'forward_open':
         s += ':large' if m.get('large') else ':small'
     if isinstance(m.get('data'), dict):
-        s += '[%s]' % m['data']['type']
+        s += '[STRUCT]' if m['data']['type'] == 'STRUCT' else ''
     return s
 
 
